@@ -332,7 +332,15 @@ Allowed(h, op, recv, a, post, new, ret) ==
                                           IF a.lp = 0 THEN 0 ELSE IntOfFrac(a.pp, a.pq, Len(pre.rows)))
     [] op = "BuildBootstrap" ->
          post = pre /\ Len(new) = 1 /\
-         AllowedBootstrap(pre, new[1], IF a.fp <= 0 \/ a.fp > a.fq THEN Width(pre) ELSE IntOfFrac(a.fp, a.fq, Width(pre)))
+         AllowedBootstrap(pre, new[1], IF a.fp <= 0 \/ a.fp > a.fq THEN Width(pre) ELSE IntOfFrac(a.fp, a.fq, Width(pre))) /\
+         \* `build seqboot --partition` (two blocks, the first a.part columns and the rest): each block of the replicate is
+         \* a bootstrap of the same block of the alignment
+         ("part" \in DOMAIN a =>
+            LET k == a.part  W == Width(pre)
+                blk(o, s, n) == SubAlignOp(o, s, n).new[1] IN
+            /\ Width(new[1]) = W
+            /\ AllowedBootstrap(blk(pre, 0, k), blk(new[1], 0, k), k)
+            /\ AllowedBootstrap(blk(pre, k, W - k), blk(new[1], k, W - k), W - k))
     [] op = "RandSubAlign" -> post = pre /\ Len(new) = 1 /\ AllowedRandSub(pre, new[1], a.len, a.consecutive)
     [] op = "Mutate" -> AllowedMutate(pre, post) /\ new = <<>> /\ (a.rp <= 0 => post = pre)
     [] op = "AddGaps" ->
